@@ -126,6 +126,7 @@ func menu(genesisCoinbase common.Uint256) *menuT {
 	add(&op{name: "trk2", txs: []interfaces.Transaction{sk.Tracking(12, ins(f, 6), outs(sk.Out(addrA, 1000)), prop.Hash(), msg2, sgOpinion)}, needs: []string{"prop"}})
 	add(&op{name: "regp", txs: []interfaces.Transaction{sk.RegisterProducer(13, ins(f, 8), outs(sk.Out(addrB, 1000)))}})
 	add(&op{name: "regcr", txs: []interfaces.Transaction{sk.RegisterCR(14, ins(f, 9), outs(sk.Out(addrB, 1000)))}})
+	add(&op{name: "nextturn", txs: []interfaces.Transaction{sk.NextTurn(16, 100)}})
 	add(&op{name: "vote", txs: []interfaces.Transaction{sk.Transfer(15, ins(f, 10), outs(sk.VoteOut(addrC, 900), sk.Out(addrC, 100)))}})
 
 	m.addrs = []common.Uint168{addrA, addrB, addrC, addrX, sk.MinerAddr}
